@@ -507,8 +507,15 @@ func (m *MonC09Enum) Finish(w *World) {
 		w.Sc.Params = map[string]int64{}
 	}
 	if pi, ok := w.Sc.Params["c09_i"]; ok { // replay of one schedule
-		m.runFrom(w, int(pi), int(w.Sc.Params["c09_j"]))
-		return
+		pj := w.Sc.Params["c09_j"]
+		if pi >= 0 && int(pi) < n-1 && int(pj) < n-1 {
+			if !m.runFrom(w, int(pi), int(pj)) {
+				return
+			}
+		}
+		// a shrunk history moved the indices: enumerate again
+		delete(w.Sc.Params, "c09_i")
+		delete(w.Sc.Params, "c09_j")
 	}
 	for i := 0; i < n-1; i++ {
 		if !m.runFrom(w, i, -1) {
